@@ -4,7 +4,7 @@ import OhkamiModel.GenConsts
 The connection is a list of chunks (what each `read` finds available; a chunk longer than the destination is
 delivered over consecutive reads) and a flag saying whether the peer closes after them.  `Request::clear`, `Request::read`
 (one `read` into the 1 KiB buffer, the head parsed from exactly the bytes read, the body completed by `read_exact`),
-the handler, `send`; a refused request is answered and the loop goes on. -/
+the handler, `send`; a refused request is answered and ends the session. -/
 namespace Ohkami.Session
 open Ohkami Ohkami.Http
 
@@ -109,8 +109,8 @@ def run (app : App) : Nat → Residue → Conn → List Bytes × End
         else ([], if conn.eof then .none else .stalled)
       | .panic _ => ([], .none)
       | .reject status =>
-        let (out, e) := run app fuel { res with parsed := none } ⟨rest, conn.eof⟩
-        (app.reject status :: out, e)
+        -- a refused request is answered and the session ends: where the request ends is not known, so nothing after it may be read as a request
+        ([app.reject status], .connClose)
       | .ok p =>
         match readExact (needOf first p) rest with
         | none => ([], if conn.eof then .none else .stalled)
